@@ -435,7 +435,7 @@ def run_stream(ctx, rep, cases=None):
             continue
         for i, p in enumerate(pts):
             inside, mg, d2 = cn[i]
-            pw = dict(where, point=[str(p[0]), str(p[1])], point_float=[float(p[0]), float(p[1])])
+            pw = dict(where, query_point=[str(p[0]), str(p[1])], point_float=[float(p[0]), float(p[1])])
             # model self-check against the independent oracle
             pl = py_locate(outer, holes, p)
             if lc[i] != pl or (pl == "i") != inside or py_bdry_dist2(outer, holes, p) != d2:
